@@ -155,7 +155,8 @@ to the length of the shortest input list."
 
 (defmacro or (x y)
   "Logical or."
-  (list 'if x x y))
+  (let (value (gensym))
+    (list (list 'lambda (list value) (list 'if value value y)) x)))
 
 (defmacro not (x)
   "Logical not."
